@@ -9,7 +9,8 @@
 //            caught by ASan); cells are pre-filled with a sentinel and counted afterwards
 //   rd/len   bytes consumed by rtosc_scan_arg_vals / strlen(text)
 //   V        the cells, as in harness/pretty.cpp (floats as bit patterns)
-//   P        rtosc_print_arg_vals(cells, default options), then the same on the printed text
+//   P        rtosc_print_arg_vals(cells, default options), then the same on the printed text;
+//            `P !endless` (and nothing more) when the cells have a range with count <= 0 at top level
 // After `C <count>` with count < 0 (syntax error reported) the group ends there.
 // With alt=: ` | A C <count> W <written> R <rd>/<len> V <cell>*` for the second text is appended.
 #include "common.h"
@@ -70,6 +71,25 @@ static bool count_scan(const char *text, Scanned &sc, std::ostringstream &o, con
     return true;
 }
 
+// A range with a count <= 0 outside of an array ("endless" at top level) is not a printable value
+// list: the manual allows the open end only as the last element of an array, and the printer
+// would write "b ... " with the following values behind it.  No sentence scans to such a list
+// (the oracle sees the cells); for other texts the print / rescan part is skipped.
+static bool endless_at_top(const rtosc_arg_val_t *c, int n) {
+    for (int i = 0; i < n;) {
+        if (c[i].type == 'a') { i += 1 + rtosc_av_arr_len(&c[i]); continue; }
+        if (c[i].type == '-') {
+            if (rtosc_av_rep_num(&c[i]) <= 0) return true;
+            if (rtosc_av_rep_has_delta(&c[i])) { i += 3; continue; }
+            ++i;
+            if (i < n && c[i].type == 'a') i += 1 + rtosc_av_arr_len(&c[i]); else ++i;
+            continue;
+        }
+        ++i;
+    }
+    return false;
+}
+
 static std::string step(const std::string &line) {
     auto w = words(line);
     if (w.empty()) return "bad-op";
@@ -80,6 +100,7 @@ static std::string step(const std::string &line) {
     std::ostringstream o;
     Scanned s1;
     if (!count_scan(mem.c(), s1, o, "")) return o.str();
+    if (endless_at_top(s1.cells, s1.count)) { o << " P !endless"; return o.str(); }
     // print with the default options, in a buffer that is large enough
     const size_t cap = 1 << 16;
     char *text2 = (char *)malloc(cap);
